@@ -3694,6 +3694,9 @@ func (d *cborDecDriverBytes) decodeTime(xtag uint64) (t time.Time) {
 		halt.onerror(err)
 	case 1:
 		f1, f2 := math.Modf(d.DecodeFloat64())
+		if !(f1 >= -(1<<62) && f1 <= 1<<62) {
+			halt.errorf("epoch seconds out of range for time.Time: %v", f1)
+		}
 		t = time.Unix(int64(f1), int64(f2*1e9))
 	default:
 		halt.errorf("invalid tag for time.Time - expecting 0 or 1, got 0x%x", xtag)
@@ -7746,6 +7749,9 @@ func (d *cborDecDriverIO) decodeTime(xtag uint64) (t time.Time) {
 		halt.onerror(err)
 	case 1:
 		f1, f2 := math.Modf(d.DecodeFloat64())
+		if !(f1 >= -(1<<62) && f1 <= 1<<62) {
+			halt.errorf("epoch seconds out of range for time.Time: %v", f1)
+		}
 		t = time.Unix(int64(f1), int64(f2*1e9))
 	default:
 		halt.errorf("invalid tag for time.Time - expecting 0 or 1, got 0x%x", xtag)
